@@ -787,6 +787,9 @@ func (e *Env) evalCall(n ECall) Val {
 		}
 		comp := fmt.Sprintf("arg_%s_%d", k, i)
 		u.setCompSort(comp, "(Array Int "+sorts[i]+")")
+		if n.Fun == "arg" {
+			e.recordEventIdx(j)
+		}
 		return Val{T: sel(u.get(e.st, comp), j), Sort: sorts[i], Typ: u.eventArgTyp[k+"/"+fmt.Sprint(i)]}
 	case "at", "atlast":
 		k := e.kindName(n.Args[0])
@@ -796,6 +799,9 @@ func (e *Env) evalCall(n ECall) Val {
 			j = e.eval(n.Args[1]).T
 		} else {
 			j = "(- " + u.get(e.st, "cnt_"+k) + " 1)"
+		}
+		if n.Fun == "at" {
+			e.recordEventIdx(j)
 		}
 		return specVal(sel(u.get(e.st, "at_"+k), j), SInt)
 	case "held":
@@ -1100,6 +1106,26 @@ func (e *Env) recordIdx(off, ix Term) {
 		q.Offs = append(q.Offs, off)
 		q.Idx = append(q.Idx, ix)
 	}
+}
+
+// recordEventIdx notes the position term of an event (arg(K, j, i), at(K, j)) for the instantiation engine, like an
+// element index: `base + q` under a quantifier over q is offered the ground positions minus base.
+func (e *Env) recordEventIdx(j Term) {
+	if e.rec == nil {
+		return
+	}
+	if q := e.rec.cur; q != nil && strings.Contains(j, q.Var) {
+		switch {
+		case j == q.Var:
+			e.recordIdx("0", j)
+		case strings.HasPrefix(j, "(+ ") && strings.HasSuffix(j, " "+q.Var+")"):
+			e.recordIdx(j[3:len(j)-len(q.Var)-2], j)
+		case strings.HasPrefix(j, "(+ "+q.Var+" ") && strings.HasSuffix(j, ")"):
+			e.recordIdx(j[len("(+ "+q.Var+" "):len(j)-1], j)
+		}
+		return
+	}
+	e.recordIdx("0", j)
 }
 
 // groundSubFact states rootid(sub(r, i)) = rootid(r) for an address built during contract evaluation, unless it
